@@ -176,6 +176,56 @@ def check_pairing(idx: Index, rep: Report) -> None:
         r.fail(rem.fq + ":head", Finding("C01.R1u", rem.fq, "head-not-updated", "remove_use must set first_use to the removed use's successor exactly when the removed use has no predecessor", rem.loc))
 
 
+END_OF = {"_next_op": "_last_op", "_prev_op": "_first_op", "_next_block": "_last_block", "_prev_block": "_first_block"}
+LINK_READ = re.compile(r"\._(next|prev|first|last)_(op|block)$")
+LINK_PRIMS = {"_insert_next_op": "_next_op", "_insert_prev_op": "_prev_op"}
+
+
+def check_end_pointers(idx: Index, rep: Report) -> None:
+    """A node N that receives `N.next = E`, where E is read from a neighbour's link and may be None, becomes the last
+    node of its list exactly when E is None: the function must then store `<container>._last = N` (symmetric for prev /
+    _first).  Calls of the link primitives `A._insert_next_op(N)` count as `N._next_op = A._next_op`."""
+    r = rep.rule("C01.R1e", "a node linked in front of / behind a neighbour whose own link may be None (list end) is also stored as the container's first / last node", floor=2)
+    mi = idx.module(CORE)
+    for f in raw_funcs(mi):
+        if f.name in LINK_PRIMS:
+            continue  # the primitives only write node links; their callers are checked through the call form below
+        events = []  # (stmt, node expr N, field, neighbour-link expr E)
+        for n, recv, fld, val in link_stores(f.node):
+            if fld in END_OF and not (isinstance(val, ast.Constant) and val.value is None):
+                events.append((n, recv, fld, val))
+        for c in calls_in(f.node):
+            if call_attr(c) in LINK_PRIMS and len(c.args) == 1 and isinstance(c.func, ast.Attribute):
+                fld = LINK_PRIMS[call_attr(c)]
+                events.append((c, c.args[0], fld, ast.Attribute(value=c.func.value, attr=fld, ctx=ast.Load())))
+        if not events:
+            continue
+        cx = FnCtx(f)
+        cfg = cx.cfg
+        end_stores = [(n, n.targets[0].attr, n.value) for n in walk_local(f.node) if isinstance(n, ast.Assign) and len(n.targets) == 1 and isinstance(n.targets[0], ast.Attribute) and n.targets[0].attr in END_FIELDS]
+        for st, node, fld, e in events:
+            at = cfg.node_of(st)
+            if isinstance(e, ast.Attribute) and not hasattr(e, "lineno"):
+                etxts = {canon(t + "." + fld) for t in cx.texts(e.value, at)}
+            else:
+                etxts = cx.texts(e, at)
+            link_reads = {t for t in etxts if t.endswith('.' + fld)}
+            if not link_reads:
+                continue  # a parameter / fresh node / self: never None
+            facts = cx.fact_texts(st)
+            if any(f"{t} is not None" in facts for t in etxts):
+                continue
+            # the link read before this statement may have been captured in a local that is tested
+            ntx = cx.texts(node, at)
+            endf = END_OF[fld]
+            ok = any(ef == endf and (cx.texts(ev, cfg.node_of(es)) & ntx) for es, ef, ev in end_stores)
+            inst = f"{f.fq}:{canon(unparse(node))}.{fld}"
+            if ok:
+                r.ok(inst, f"{f.module.relpath}:{st.lineno} `{unparse(st)[:60]}`: {endf} is updated to the linked node")
+            else:
+                r.fail(inst, Finding("C01.R1e", f.fq, f"end-pointer:{endf}", f"`{unparse(st)[:80]}` links `{unparse(node)}` {'behind' if 'next' in fld else 'in front of'} a node whose {fld} (`{sorted(link_reads)[0]}`) is None at the end of the list, but the function never stores `{endf} = {unparse(node)}`: the container's {endf} keeps pointing at the old end, so backward / forward traversals disagree", f"{f.module.relpath}:{st.lineno}"))
+
+
 def check_writers(idx: Index, rep: Report) -> None:
     r = rep.rule("C01.R2", "link / parent / use-list / argument-list fields are written only by the primitives of xdsl/ir/core.py (+ Rewriter.replace_value_with_new_type)", floor=60)
     fields = LINK_FIELDS | END_FIELDS | USE_FIELDS | {"parent"}
@@ -491,22 +541,45 @@ def check_attach(idx: Index, rep: Report) -> None:
             r.ok(f.fq + ":owner")
 
 
+def check_attach_last(idx: Index, rep: Report) -> None:
+    """_attach_* sets child.parent: it is the commit point of an insertion.  Every rejection (explicit raise) of the
+    insertion API must come before it, otherwise a failed call leaves a node that claims a parent but is in no list."""
+    r = rep.rule("C01.R6b", "no insertion API can raise after _attach_op / _attach_block has set the child's parent (validation precedes the commit point)", floor=6)
+    mi = idx.module(CORE)
+    for f in raw_funcs(mi):
+        atts = [c for c in calls_in(f.node) if call_attr(c) in ("_attach_op", "_attach_block")]
+        if not atts or f.name in ("_attach_op", "_attach_block"):
+            continue
+        cfg = CFG(f.node)
+        raises = [n for n in walk_local(f.node) if isinstance(n, ast.Raise) and n.exc is not None]
+        for a in atts:
+            an = cfg.node_of(a)
+            after = cfg.reachable(an)
+            late = [x for x in raises if cfg.node_of(x) in after and cfg.node_of(x) != an]
+            # re-raising inside an except handler of an exhausted iterator is not a rejection of the inserted node
+            inst = f"{f.fq}:{a.lineno - f.node.lineno}"
+            if late:
+                x = late[0]
+                r.fail(inst, Finding("C01.R6b", f.fq, "raise-after-attach", f"`{unparse(x)[:80]}` (line {x.lineno}) can be reached after `{unparse(a)}` has set the child's parent: a rejected call leaves the node with a parent although it is in no list (later insertions are refused, erase asserts)", f"{f.module.relpath}:{x.lineno}"))
+            else:
+                r.ok(inst, None)
+    r.samples[:] = ["Block.insert_op_before: `existing_op.parent is not self` is tested before self._attach_op(new_op)"]
+
+
 def check(idx: Index, rep: Report, tier: str) -> str:
     rep.run(check_pairing, idx, rep)
+    rep.run(check_end_pointers, idx, rep)
     rep.run(check_writers, idx, rep)
     rep.run(check_use_pairing, idx, rep)
     rep.run(check_arg_shift, idx, rep)
     rep.run(check_index_classes, idx, rep)
     rep.run(check_attach, idx, rep)
-    from .. import shape
-
-    shape.check_c01(idx, rep, tier)
+    rep.run(check_attach_last, idx, rep)
     return (
         "AST/CFG rules over the intrusive-list and use-list primitives of xdsl/ir/core.py and every writer of a structural "
         "field in the repository: link stores come in next/prev pairs on the same paths, Use objects are re-initialised "
         "when re-homed, only the primitives write link/parent/use fields (whole-repository sweep), operand/successor "
         "replacement re-homes the same Use, argument indices are shifted for exactly the suffix, slice rebuilds are right "
-        "for every index class, insertion goes through _attach_*; plus a local-heap case analysis (xsa.shape) that pushes "
-        "the pointer assignments of each primitive through every local list configuration and checks the doubly-linked "
-        "list, head/tail and parent invariants. Client code that bypasses the API is outside the model."
+        "for every index class, insertion goes through _attach_*, a node linked next to a list end is stored as the "
+        "container's first / last node. Client code that bypasses the API is outside the model."
     )
